@@ -24,13 +24,15 @@ from automata.fa.nfa import NFA
 
 from harness import gen
 from harness import nfaops_lib as L
-from harness.common import Ctx, Names, call
+from harness.common import Ctx, Names, call, nfa_iso
 
 LEVEL = "proof"
 RULE = ("cases = (operation, valid NFA operand(s)); corpus of past defects (F6, F12), bounded-exhaustive small "
         "operands, then shaped random operands (≤5 states, ε-moves, adversarial name pools, degenerate families: "
         "empty language with a single non-final state, universal, disjoint / overlapping alphabets, overlapping "
-        "names, ε-only, states without rows, empty target sets, rows keyed by non-states) and random expression "
+        "names, ε-only, states without rows, empty target sets, rows keyed by non-states; live 'dense' operands and "
+        "operands with extra final states so that about half of the results are non-empty; the SAME OBJECT on both "
+        "sides (A + A, A & A, …) exhaustively for small A and at random; empty-alphabet operands) and random expression "
         "trees of depth ≤3 whose intermediate real results are fed back as operands; a case is non-trivial when "
         "every operand has ≥2 states and the result language is neither empty nor universal up to the word "
         "bound; distinct = distinct (operation, operand definitions)")
@@ -120,6 +122,8 @@ def oracle(ctx: Ctx, op: str, A: NFA, B, res, case: dict, thorough_equiv: bool =
     facts["universal"] = len(LR) == n_words
     if bad is None and thorough_equiv:
         verdict, w = L.distinguish(L.raw_of(R), T, sigma, budget=1500)
+        if verdict == "budget":   # second, much larger try; what is left is reported as a note by run()
+            verdict, w = L.distinguish(L.raw_of(R), T, sigma, budget=60000)
         ctx.stat("equiv_" + verdict)
         if verdict == "differ":
             bad = (w, T.accepts(w))
@@ -135,6 +139,20 @@ def oracle(ctx: Ctx, op: str, A: NFA, B, res, case: dict, thorough_equiv: bool =
         else:
             ctx.note(f"oracle disagreement not confirmed by accepts_input on {w!r} ({op})")
     return facts
+
+
+def _same_up_to_renaming(impl, mod) -> bool:
+    def live(p):
+        # rows keyed by names that are not states (accepted by validation, never reachable: every
+        # target is a state) play no role in the language; which of them survive an operation is
+        # not part of the property
+        st = set(p["states"])
+        return dict(p, trans={k: r for k, r in p["trans"].items() if k in st})
+    try:
+        return (impl[0] == "ok" and mod[0] == "ok" and isinstance(impl[1], dict) and isinstance(mod[1], dict)
+                and len(impl[1]["states"]) <= 40 and nfa_iso(live(impl[1]), live(mod[1])))
+    except Exception:  # noqa: BLE001
+        return False
 
 
 def check_op(ctx: Ctx, op: str, A: NFA, B, origin: str):
@@ -164,8 +182,17 @@ def check_op(ctx: Ctx, op: str, A: NFA, B, origin: str):
         ctx.stat("impl_raised_" + res[1])
     if facts["empty"]:
         ctx.stat("result_empty_upto_bound")
+        ctx.stat("result_empty_upto_bound_" + origin)
+    elif facts["empty"] is False:
+        ctx.stat("result_nonempty_upto_bound_" + origin)
     if facts["universal"]:
         ctx.stat("result_universal_upto_bound")
+    if B is A:
+        ctx.stat("same_object_both_operands")
+    if not A.input_symbols or (B is not None and not B.input_symbols):
+        ctx.stat("empty_alphabet_operand")
+    if not sigma:
+        ctx.stat("empty_alphabet_result")
     if L.has_junk_rows(A) or (B is not None and L.has_junk_rows(B)):
         ctx.stat("operand_with_row_keyed_by_non_state")
     if any("" in row for row in A.transitions.values()):
@@ -183,7 +210,14 @@ def check_op(ctx: Ctx, op: str, A: NFA, B, origin: str):
         ctx.sample(dict(op=op, A=repr(A), B=repr(B) if B is not None else None,
                         result=repr(res[1]) if res[0] == "ok" else res, model_line=line[:400]))
     if impl != mod:
-        ctx.corr_diff("NFA_OP " + op, case, impl, mod)
+        if _same_up_to_renaming(impl, mod):
+            # the code and the model produce the same automaton up to a bijective renaming of its
+            # states (e.g. another choice of the fresh initial state).  C08 speaks about languages
+            # and validity only, and both are invariant under an injective renaming
+            # (Proofs/NFAMapStates.lean: mapStates_valid_lang), so the theorems carry over.
+            ctx.stat("result_equal_to_model_up_to_state_renaming")
+        else:
+            ctx.corr_diff("NFA_OP " + op, case, impl, mod)
     return res[1] if res[0] == "ok" and isinstance(res[1], NFA) else None
 
 
@@ -240,22 +274,70 @@ def random_pair(rng, max_states=4):
 
     def one(alpha):
         q = rng.random()
-        if q < 0.22:
+        if q < 0.18:
             return L.degenerate_nfa(rng, alpha, list(names) if names else None)[1]
+        if q < 0.36:
+            return dense_nfa(rng, alpha, max_states, list(names) if names else None)
         n = gen.rand_nfa(rng, max_states, alphabet=alpha, names=list(names) if names else None)
         if q > 0.85:
             n = L.with_junk_rows(rng, n)
+        if rng.random() < 0.5:
+            n = more_finals(rng, n)
         return n
     return fam, one(sa), one(sb)
+
+
+def more_finals(rng, n: NFA, p: float = 0.3) -> NFA:
+    """The same automaton with every state additionally final with probability p (raises the share of
+    non-empty result languages: products and quotients of sparse random operands are mostly empty)."""
+    extra = {q for q in n.states if rng.random() < p}
+    if not extra:
+        extra = {n.initial_state} if rng.random() < 0.5 else set()
+    return NFA(states=n.states, input_symbols=n.input_symbols, transitions=n.transitions,
+               initial_state=n.initial_state, final_states=set(n.final_states) | extra)
+
+
+def dense_nfa(rng, alpha, max_states=4, names=None) -> NFA:
+    """A live operand: every state has a row with every symbol and ≥1 target, ≥1 final state reachable."""
+    k = rng.randint(2, max_states)
+    st = (list(names) if names else gen.name_pool(rng, k))[:k]
+    k = len(st)
+    tr = {}
+    for q in st:
+        row = {a: {rng.choice(st) for _ in range(rng.randint(1, 2))} for a in alpha}
+        if rng.random() < 0.25:
+            row[""] = {rng.choice(st)}
+        tr[q] = row
+    fin = {q for q in st if rng.random() < 0.5} or {rng.choice(st)}
+    return NFA(states=set(st), input_symbols=set(alpha), transitions=tr, initial_state=st[0], final_states=fin)
+
+
+def empty_alphabet_nfa(rng) -> NFA:
+    """input_symbols = ∅: only ε-moves; the language is ∅ or {''}."""
+    k = rng.randint(1, 3)
+    st = gen.name_pool(rng, k)
+    k = len(st)
+    tr = {}
+    for q in st:
+        if rng.random() < 0.75:
+            tr[q] = {"": {rng.choice(st) for _ in range(rng.randint(0, 2))}} if rng.random() < 0.7 else {}
+    if k > 1 or rng.random() < 0.5:
+        tr.setdefault(st[0], {})
+    return NFA(states=set(st), input_symbols=set(), transitions=tr, initial_state=st[0],
+               final_states={q for q in st if rng.random() < 0.5})
 
 
 def random_tree(ctx: Ctx, rng, depth: int):
     """Evaluate a random expression tree on the real code, checking every application."""
     if depth == 0 or rng.random() < 0.2:
         alpha = rng.choice([("a", "b"), ("a",), ("a", "b", "c")])
-        if rng.random() < 0.2:
+        q = rng.random()
+        if q < 0.15:
             return L.degenerate_nfa(rng, alpha)[1]
-        return gen.rand_nfa(rng, 3, alphabet=alpha)
+        if q < 0.4:
+            return dense_nfa(rng, alpha, 3)
+        n = gen.rand_nfa(rng, 3, alphabet=alpha)
+        return more_finals(rng, n) if rng.random() < 0.5 else n
     if rng.random() < 0.4:
         op = rng.choice(UNARY)
         X = random_tree(ctx, rng, depth - 1)
@@ -264,7 +346,7 @@ def random_tree(ctx: Ctx, rng, depth: int):
         return check_op(ctx, op, X, None, "composition")
     op = rng.choice(ALL_BINARY)
     X = random_tree(ctx, rng, depth - 1)
-    Y = random_tree(ctx, rng, depth - 1)
+    Y = X if rng.random() < 0.12 else random_tree(ctx, rng, depth - 1)   # sometimes the same object twice
     if X is None or Y is None:
         return None
     if op in ("shuffle_product", "right_quotient", "left_quotient", "intersection", "and") and \
@@ -312,9 +394,44 @@ def run(ctx: Ctx):
             check_op(ctx, op, A, B, "random")
         op = rng.choice(UNARY)
         check_op(ctx, op, A, None, "random")
+    # 2b. the SAME OBJECT on both sides: A + A, A & A, A.union(A), … (overlapping names in the extreme,
+    #     shared caches of the one object)
+    for A in ones + twos[::(9 if thorough else 60)]:
+        for op in ALL_BINARY:
+            check_op(ctx, op, A, A, "same_object_exhaustive")
+    ctx.exhaustive("(op, A, A) with the same object on both sides: all 1-state NFAs over {a} and "
+                   + ("every 9th" if thorough else "every 60th") + " 2-state NFA over {a} × 6 binary operations + 3 operators")
+    for _ in range(ctx.budget(120, 3000)):
+        alpha = list(rng.choice(gen.ALPHABETS))
+        q = rng.random()
+        A = (dense_nfa(rng, alpha) if q < 0.35 else L.degenerate_nfa(rng, alpha)[1] if q < 0.45
+             else more_finals(rng, gen.rand_nfa(rng, 4, alphabet=alpha)))
+        if rng.random() < 0.2:
+            A = L.with_junk_rows(rng, A)
+        for op in rng.sample(ALL_BINARY, 4):
+            check_op(ctx, op, A, A, "same_object")
+    # 2c. empty-alphabet operands (against each other and against ordinary operands)
+    for _ in range(ctx.budget(60, 1500)):
+        A = empty_alphabet_nfa(rng)
+        B = empty_alphabet_nfa(rng) if rng.random() < 0.5 else gen.rand_nfa(rng, 3, alphabet=rng.choice(gen.ALPHABETS[:3]))
+        if rng.random() < 0.5:
+            A, B = B, A
+        for op in rng.sample(ALL_BINARY, 3):
+            check_op(ctx, op, A, B, "empty_alphabet")
+        for X in (A, B):
+            if not X.input_symbols:
+                check_op(ctx, rng.choice(UNARY), X, None, "empty_alphabet")
     # 3. compositions
     for _ in range(ctx.budget(350, 8000)):
         random_tree(ctx, rng, 3)
+    report_budget(ctx)
+
+
+def report_budget(ctx: Ctx):
+    n = ctx.stats.get("equiv_budget", 0)
+    if n:
+        ctx.note(f"all-lengths equivalence oracle (b) ran out of budget (60000 subset pairs) on {n} case(s): on them the "
+                 f"language clause was evaluated by oracle (a) only (all words up to the bound through the real reader)")
 
 
 def search(ctx: Ctx):
